@@ -4,7 +4,7 @@ import numbers
 import textwrap
 from copy import deepcopy
 from typing import Any
-from collections import namedtuple
+from collections import OrderedDict, namedtuple
 from collections.abc import Mapping, Iterable
 
 import numpy as np
@@ -1271,7 +1271,9 @@ class NDCube(NDCubeBase):
             meta=self.meta,
             unit=new_unit
         )
-        new_cube._global_coords = self._global_coords
+        # The new cube gets global coords of its own, holding everything the source has, including
+        # the coordinates of dimensions dropped by slicing, which the resampled WCS cannot express.
+        new_cube.global_coords._internal_coords = OrderedDict(self.global_coords._all_coords)
         # Reconstitute extra coords
         if not self.extra_coords.is_empty:
             new_cube._extra_coords = self.extra_coords.resample(bin_shape, offset=bin_offset,
